@@ -503,3 +503,19 @@ fn c09_abandoned_bar_that_started_at_a_position() {
     pb.abandon();
     assert!(pb.per_sec() < 10_000.0, "100 steps in 0.1 s reported as {} steps/s", pb.per_sec());
 }
+
+/// C04: a live bar whose first template line is empty must not erase the static line of a finished,
+/// dropped bar above it.
+#[test]
+fn c04_empty_first_line_below_static_rows() {
+    let term = InMemoryTerm::new(10, 20);
+    let mp = multi(&term);
+    let a = mp.add(ProgressBar::with_draw_target(Some(5), ProgressDrawTarget::hidden()).with_style(ProgressStyle::with_template("a:{pos}").unwrap()).with_finish(ProgressFinish::AndLeave));
+    let b = mp.add(ProgressBar::with_draw_target(Some(5), ProgressDrawTarget::hidden()).with_style(ProgressStyle::with_template("{msg}\nb:{pos}").unwrap()));
+    a.tick();
+    a.finish();
+    drop(a);
+    b.tick();
+    b.tick();
+    assert_eq!(term.contents(), "a:5\n\nb:0");
+}
